@@ -2042,6 +2042,9 @@ func (m *svMut) apply() string {
 		ma := msgs[r.Intn(len(msgs))]
 		switch r.Intn(6) {
 		case 0:
+			if ma.num < 0 {
+				return "" // the receiver's number is a uint32 field: a (mutated) negative interface number has no encoding there
+			}
 			ma.m.Recvs = append(ma.m.Recvs, svRecv{ma.node, ma.num})
 			return "recv-is-sender"
 		case 1:
@@ -2303,7 +2306,62 @@ func (m *svMut) apply() string {
 			a.Vals = a.Vals[:len(a.Vals)-1]
 			return "enum-attr-drop-value"
 		}
-	case 18: // duplicated bus / interface / message
+	case 18: // duplicated bus / interface / message / signal id
+		switch r.Intn(6) {
+		case 3: // the same message (entity id) under another interface
+			if len(msgs) > 0 && len(p.Buses) > 0 {
+				ma := msgs[r.Intn(len(msgs))]
+				t := &p.Buses[r.Intn(len(p.Buses))]
+				if len(t.Ifaces) > 0 {
+					ifc := &t.Ifaces[r.Intn(len(t.Ifaces))]
+					x := svClone(*ma.m)
+					if r.Intn(2) == 0 {
+						x.Mid += 500 // another message id, the same entity id
+					}
+					ifc.Msgs = svInsertAt(ifc.Msgs, r.Intn(len(ifc.Msgs)+1), x)
+					return "dup-message-elsewhere"
+				}
+			}
+		case 4, 5: // one signal entity id under two parents: a coherent rename of a signal to the id of another
+			if len(all) >= 2 {
+				a, b := all[r.Intn(len(all))], all[r.Intn(len(all))]
+				if a == b || a.E.ID == b.E.ID {
+					return ""
+				}
+				from, to := a.E.ID, b.E.ID
+				a.E.ID = to
+				ren := func(refs []svpRef) {
+					for i := range refs {
+						if refs[i].ID == from {
+							refs[i].ID = to
+						}
+					}
+				}
+				// the lists of the parent that name the renamed signal follow it
+				for _, ma := range msgs {
+					for _, x := range ma.m.Sigs {
+						if x == a {
+							ren(ma.m.Refs)
+						}
+					}
+				}
+				for _, mx := range muxes {
+					for _, x := range mx.Sigs {
+						if x == a {
+							for gi := range mx.Groups {
+								ren(mx.Groups[gi])
+							}
+							for i := range mx.Fixed {
+								if mx.Fixed[i] == from {
+									mx.Fixed[i] = to
+								}
+							}
+						}
+					}
+				}
+				return "dup-signal-id"
+			}
+		}
 		switch r.Intn(3) {
 		case 0:
 			if n := len(p.Buses); n > 0 {
